@@ -240,5 +240,135 @@ def oracleC04 (kind : Kind) (cap : Option Nat) (t : Trace) : Bool :=
   | some c, .unsync => boundC04 c t
   | some c, .sync => boundC04Sync c t
 
+/-! ### C03: no spurious loss -/
+
+/-- Reference entry for C03: besides the bookkeeping of `GEntry`, `tSure` is the latest access
+time the idle timer is *guaranteed* to have seen (on the concurrent cache a get extends it
+only once maintenance has applied the read) and `maybeDead` marks entries inserted at the
+very clock reading of an `invalidate_all` (the property only speaks about strictly earlier
+ones). -/
+structure REntry where
+  val : Nat
+  tIns : Nat
+  tAcc : Nat
+  tSure : Nat
+  alive : Bool
+  maybeDead : Bool := false
+  deriving Repr, DecidableEq, Inhabited
+
+structure Ref where
+  now : Nat := 0
+  ents : List (Nat × REntry) := []
+  deriving Repr, Inhabited
+
+def mapEnts (f : Nat → REntry → REntry) : List (Nat × REntry) → List (Nat × REntry)
+  | [] => []
+  | (k, e) :: rest => (k, f k e) :: mapEnts f rest
+
+def refStep (kind : Kind) (r : Ref) (op : Op) (obs : Obs) : Ref :=
+  match op, obs with
+  | .ins k v, _ =>
+    let e : REntry := { val := v, tIns := r.now, tAcc := r.now, tSure := r.now, alive := true }
+    { r with ents := AL.put r.ents k e }
+  | .get k, .val (some _) =>
+    match AL.get? r.ents k with
+    | some e =>
+      let e' : REntry := { e with tAcc := r.now, tSure := if kind == .unsync then r.now else e.tSure }
+      { r with ents := AL.put r.ents k e' }
+    | none => r
+  | .sync, _ => { r with ents := mapEnts (fun _ e => { e with tSure := e.tAcc }) r.ents }
+  | .inv k, _ => { r with ents := mapEnts (fun k' e => if k' == k then { e with alive := false } else e) r.ents }
+  | .invAll, _ =>
+    match kind with
+    | .unsync => { r with ents := mapEnts (fun _ e => { e with alive := false }) r.ents }
+    | .sync => { r with ents := mapEnts (fun _ e =>
+        if e.tIns < r.now then { e with alive := false }
+        else if e.tIns == r.now then { e with maybeDead := true } else e) r.ents }
+  | .invIf p, _ => { r with ents := mapEnts (fun k e => if p.eval k e.val then { e with alive := false } else e) r.ents }
+  | .adv d, _ => { r with now := r.now + d }
+  | _, _ => r
+
+/-- The entry must be observable at `r.now`: inserted, not invalidated, neither expiry
+deadline reached (with the guaranteed access time). -/
+def mustLive (ttl tti : Option Nat) (r : Ref) (e : REntry) : Bool :=
+  e.alive && !e.maybeDead &&
+  (match ttl with
+   | some d => decide (r.now < e.tIns + d)
+   | none => true) &&
+  (match tti with
+   | some d => decide (r.now < e.tSure + d)
+   | none => true)
+
+/-- Part A (capacity none, or never reached): every lookup returns exactly what the
+map-with-expiry reference requires. -/
+def exactC03 (kind : Kind) (ttl tti : Option Nat) : Ref → Trace → Bool
+  | _, [] => true
+  | r, (op, obs) :: rest =>
+    if stops obs then true
+    else
+      (match op, obs with
+       | .get k, .val res =>
+         (match AL.get? r.ents k with
+          | some e => !(mustLive ttl tti r e) || res == some e.val
+          | none => true)
+       | .has k, .bool b =>
+         (match AL.get? r.ents k with
+          | some e => !(mustLive ttl tti r e) || b
+          | none => true)
+       | .iter, .iter l =>
+         r.ents.all fun ke => !(mustLive ttl tti r ke.2) || l.contains (ke.1, ke.2.val)
+       | _, _ => true) &&
+      exactC03 kind ttl tti (refStep kind r op obs) rest
+
+/-- Total weight ever inserted, an upper bound for what can be resident at once. -/
+def totalInserted (w : Nat → Nat → Nat) : Trace → Nat
+  | [] => 0
+  | (.ins k v, _) :: rest => w k v + totalInserted w rest
+  | _ :: rest => totalInserted w rest
+
+def entryLiveAt (ttl tti : Option Nat) (now : Nat) (va : Option Nat) (e : EntryView) : Bool :=
+  !(expiredAt ttl e.lm now) && !(expiredAt tti e.la now) &&
+  (match va, e.lm, e.la with
+   | some v, some lm, some la => !(decide (lm < v)) && !(decide (la < v))
+   | _, _, _ => true)
+
+/-- Part B on the single-threaded cache (white-box, consecutive snapshots around an insert of
+a key that is not resident): if its weight fits in the room the residents leave, it is
+resident afterwards and no resident that is still unexpired has left. -/
+def fitsC03 (cap : Nat) (ttl tti : Option Nat) (w : Nat → Nat → Nat) : Trace → Bool
+  | (.snap, .snap before) :: (.ins k v, .ok) :: (.snap, .snap after) :: rest =>
+    (let fresh := !(before.entries.any (fun e => e.key == k))
+     let fits := decide (snapWeight before + w k v ≤ cap)
+     !(fresh && fits) ||
+       (after.entries.any (fun e => e.key == k && e.val == v) &&
+        before.entries.all (fun e => !(entryLiveAt ttl tti after.now none e) ||
+          after.entries.any (fun e' => e'.key == e.key)))) &&
+    fitsC03 cap ttl tti w ((.snap, .snap after) :: rest)
+  | _ :: rest => fitsC03 cap ttl tti w rest
+  | [] => true
+
+/-- Part B on the concurrent cache: `sync, snap, ins k v, sync, snap` with empty queues. -/
+def fitsC03Sync (cap : Nat) (ttl tti : Option Nat) (w : Nat → Nat → Nat) : Trace → Bool
+  | (.sync, .ok) :: (.snap, .snap before) :: (.ins k v, .ok) :: (.sync, .ok) :: (.snap, .snap after) :: rest =>
+    (let fresh := !(before.entries.any (fun e => e.key == k))
+     let quiet := before.rq == 0 && before.wq == 0 && after.rq == 0 && after.wq == 0
+     let fits := decide (snapWeight before + w k v ≤ cap)
+     !(fresh && quiet && fits) ||
+       (after.entries.any (fun e => e.key == k && e.val == v) &&
+        before.entries.all (fun e => !(entryLiveAt ttl tti after.now after.va e) ||
+          after.entries.any (fun e' => e'.key == e.key)))) &&
+    fitsC03Sync cap ttl tti w ((.sync, .ok) :: (.snap, .snap after) :: rest)
+  | _ :: rest => fitsC03Sync cap ttl tti w rest
+  | [] => true
+
+def oracleC03 (kind : Kind) (cap ttl tti : Option Nat) (w : Nat → Nat → Nat) (t : Trace) : Bool :=
+  (match cap with
+   | none => exactC03 kind ttl tti {} t
+   | some c => if totalInserted w t ≤ c then exactC03 kind ttl tti {} t else true) &&
+  (match cap, kind with
+   | some c, .unsync => fitsC03 c ttl tti w t
+   | some c, .sync => fitsC03Sync c ttl tti w t
+   | none, _ => true)
+
 end Spec
 end MiniMoka
